@@ -574,6 +574,39 @@ pub fn gen_writer(rng: &mut Rng, thorough: bool) -> Vec<u64> {
     c
 }
 
+/// Systematic block for kind 40: the yamux window has k bytes left (0 < k < frame) when a frame is written, the
+/// stream stalls at zero credit inside the frame, a later window update lets the rest through; every k for
+/// small frames, for poll_flush, send_framed and send_framed behind a queued frame.
+pub fn sys_partial_cases() -> Vec<Vec<u64>> {
+    let mut out = Vec::new();
+    // (tag, arg, len): wire sizes 5, 6 (1 + 5), 132 (2 + 130)
+    for (tag, arg, len, ks) in [
+        (0u64, 5u64, 5u64, &[1u64, 2, 3, 4][..]),
+        (1, 0, 5, &[1, 2, 3, 4, 5][..]),
+        (2, 300, 130, &[1, 2, 3, 70, 131][..]),
+    ] {
+        for path in 0..3u64 {
+            for &k in ks {
+                for ws in 0..2u64 {
+                    // the window: k bytes; the first grant comes between two operations, the later ones as wake-ups
+                    let mut c = vec![40, ws, tag, arg, DEFAULT_CREDIT - k, 0];
+                    let ops: Vec<u64> = match path {
+                        0 => vec![0, 1, 31, len, 2, 6, 1, 0, 2, 6, 1000, 0, 2, 2],
+                        1 => vec![3, 31, len, 3, 33, len],
+                        _ => vec![0, 1, 31, len, 3, 33, len, 2],
+                    };
+                    let nops = match path { 0 => 8, 1 => 2, _ => 4 };
+                    c.push(nops);
+                    c.extend(ops);
+                    c.extend([7, 0, 0, 1, 0, 0, 0, 2, 0, 1000, 0, 1000, 0, 0, 0]);
+                    out.push(c);
+                }
+            }
+        }
+    }
+    out
+}
+
 fn push_varint(raw: &mut Vec<(u64, u64)>, mut n: u64) {
     loop {
         if n < 128 {
